@@ -79,7 +79,9 @@ func init() {
 		// spec -> code: every edge that cuts or abandons a transfer
 		st := tourSome(run, gs, func(e *sessrep.Edge) bool {
 			c := e.Lbl.Cmd.C
-			return c == "DATACUT" || c == "BDATCUT" || (isTransferState(e) && e.Dst.Bdat == "none")
+			// (and every BDAT command whose size is not acceptable: a chunk that is
+			// never framed can never complete a message)
+			return c == "DATACUT" || c == "BDATCUT" || (isTransferState(e) && e.Dst.Bdat == "none") || (c == "BDAT" && e.Lbl.Cmd.A == "badsize")
 		})
 		per, maxLen := 4, 10
 		if tier == "thorough" {
